@@ -50,10 +50,19 @@ def op_token(op: dict) -> str:
 def node_items(n: dict) -> list[str]:
     out = ["N", str(n["d"]), _o(n["v"]), str(n["ref"]), op_token(n["op"])]
     for b in n.get("bodies", []):
-        out.append("B")
+        out.append("{")
         for l in b:
-            out += ["L", str(l["d"]), _o(l["v"]), str(l["ref"]), op_token(l["op"])]
+            out += node_items(l)
+        out.append("}")
     return out
+
+
+def iter_nodes(nodes):
+    """Every node of a node list, subgraphs of any depth included, in visiting order."""
+    for n in nodes:
+        yield n
+        for b in n.get("bodies", []):
+            yield from iter_nodes(b)
 
 
 def case_line(case: dict, capi_ok: bool, inputs: list[str], inits: list[str]) -> str:
@@ -198,7 +207,7 @@ def _emit_nodes(b: _B, nodes: list, out_sink: list, funcs_sig=None):
             graphs, outs_per = [], []
             for bi, body in enumerate(node["bodies"]):
                 bouts: list = []
-                bnodes = [_strand(b, leaf, bouts) for leaf in body]
+                bnodes = _emit_nodes(b, body, bouts)
                 graphs.append(h.make_graph(bnodes, f"{p}_b{bi}", [], bouts))
                 outs_per.append(bouts)
             nout = max(len(o) for o in outs_per) if outs_per else 0
@@ -235,7 +244,7 @@ def build_proto(case: dict) -> onnx.ModelProto:
             imports.append(h.make_opsetid("ai.onnx", f["ai"]))
         imports.append(h.make_opsetid("cust", 1))
         fp = h.make_function("fn", f"F{i}", [v.name for v in fin], [v.name for v in fouts], fnodes, opset_imports=imports)
-        if any(n["ref"] for n in f["nodes"]) or any(l["ref"] for n in f["nodes"] for b_ in n.get("bodies", []) for l in b_):
+        if any(n["ref"] for n in iter_nodes(f["nodes"])):
             fp.attribute.append("verif_a")
         funcs.append(fp)
         sig.append((fin, fouts, {t.name: t for t in fb.inits}))
@@ -274,8 +283,7 @@ def apply_versions(model, case: dict) -> None:
             if cn.get("bodies"):
                 graphs = [a.as_graph() for a in irn.attributes.values() if not a.is_ref() and a.type.name == "GRAPH"]
                 for gr, body in zip(graphs, cn["bodies"]):
-                    for irl, cl in zip(list(gr), body):
-                        irl.version = cl["v"]
+                    set_nodes(gr, body)
 
     set_nodes(model.graph, case["nodes"])
     for f, cf in zip(model.functions.values(), case["funcs"]):
@@ -368,10 +376,10 @@ def obs_node(n) -> str:
         if a.is_ref():
             continue
         if a.type.name == "GRAPH":
-            s += "{" + ",".join(obs_leaf(l) for l in a.as_graph()) + "}"
+            s += "{" + ",".join(obs_node(l) for l in a.as_graph()) + "}"
         elif a.type.name == "GRAPHS":
             for g in a.as_graphs():
-                s += "{" + ",".join(obs_leaf(l) for l in g) + "}"
+                s += "{" + ",".join(obs_node(l) for l in g) + "}"
     return s
 
 
